@@ -454,6 +454,16 @@ def hand_seeds():
                     continue
                 add(lambda o=o: o)
                 break
+            # ... and one with two members in its value list (white space between members is a place of its own)
+            for tail in (" 'self' https://a.example", ' allow-forms allow-scripts', " 'script' 'script'",
+                         ' text/html application/pdf', ' https://r.example/ https://s.example/', ' default other'):
+                try:
+                    o = hh.HttpHeaderFieldValueContentSecurityPolicy.parse_exact_size(
+                        (m.value.code + tail).encode('ascii'))
+                except Exception:  # noqa
+                    continue
+                add(lambda o=o: o)
+                break
     except ImportError:
         pass
     if hasattr(ext, 'TlsExtensionDelegatedCredentials'):
